@@ -74,7 +74,8 @@ LamOK(m) ==
        /\ m.big /\ m.jerr = "" /\ m.ferr = ""
        /\ KF("lambda-json-int-beyond-2^53")
     \/ (* known finding: a string / reference that ends in a backslash cannot be written in single quotes *)
-       /\ m.tbs /\ m.jerr = "" /\ m.tj = m.t /\ m.eq /\ m.ferr = "" /\ m.perr # ""
+       (* the text either does not parse or - the backslash escaping the closing quote - parses as another expression *)
+       /\ m.tbs /\ m.jerr = "" /\ m.tj = m.t /\ m.eq /\ m.ferr = "" /\ (m.perr # "" \/ m.tjf # m.t)
        /\ KF("string-ending-in-backslash-unformattable")
 
 (* pipeline -> TICKscript (pipeline/tick) -> pipeline.  "skipped": seeded    *)
